@@ -18,7 +18,7 @@ SPEC = {
     "must_reach": ["PyMatterSim.static.pairentropy:s2_integral", "PyMatterSim.static.pairentropy:S2.particle_s2",
                    "PyMatterSim.static.geometric:q8_tetrahedral", "PyMatterSim.static.nematic:NematicOrder.tensor",
                    "PyMatterSim.static.shape:gyration_tensor"],
-    "floors": {"s2": 500, "s2_gr": 500, "s2_sparse_cases": 8, "tetrahedral": 500, "tetrahedral_N5_cases": 5, "diamond": 16,
+    "floors": {"nematic_second_call": 100, "s2": 500, "s2_gr": 500, "s2_sparse_cases": 8, "tetrahedral": 500, "tetrahedral_N5_cases": 5, "diamond": 16,
                "tetra_nonneighbour": 30, "nematic_tensor": 300, "nematic_scalar": 300, "nematic_eig_equals_trace": 300,
                "gyration": 300, "gyration_2d_cases": 30},
     "rule": ("S2: {2D,3D} x K 1..2 x width matrices x (rdelta, ndelta) x masks x {dense, sparse} x {orthogonal, triclinic}; "
@@ -244,6 +244,19 @@ def case_nematic(ctx, rng, wd):
     if ok2:
         ctx.close("nematic_eig_equals_trace", np.asarray(res2), np.asarray(res), "NematicOrder.tensor/eig_vs_trace", rtol=1e-8, atol=1e-9,
                   what="sqrt(2 tr Q^2) vs twice the largest eigenvalue", data=info)
+    # history: the SAME object asked again (other mode, then with / without the neighbour file) must still follow the definition
+    ok3, res3 = ctx.call(key + "/second_call", obj.tensor, 2, fn, 30, not eig, "nem3", data=info)
+    if ok3:
+        ctx.close("nematic_second_call", np.asarray(res3), tr if eig else lam, key + "/second_call/scalar", rtol=1e-9, atol=1e-12,
+                  what="scalar order from a second call on the same object", data=info)
+        ctx.close("nematic_second_call", np.asarray(obj.QIJ), Q, key + "/second_call/tensor", rtol=1e-10, atol=1e-13, what="Q tensor after a second call", data=info)
+    if use_nl:
+        Qraw = np.einsum("tia,tib->tiab", U, U) - 0.5 * np.eye(2)[None, None]
+        ok4, res4 = ctx.call(key + "/second_call", obj.tensor, 2, "", 30, eig, "nem4", data=info)
+        if ok4:
+            ref4 = 2 * np.linalg.eigvalsh(Qraw).max(axis=2) if eig else np.sqrt(2 * np.einsum("tiab,tiba->ti", Qraw, Qraw))
+            ctx.close("nematic_second_call", np.asarray(res4), ref4, key + "/second_call/raw_after_coarse", rtol=1e-9, atol=1e-12,
+                      what="raw scalar order asked from an object that was coarse-grained before", data=info)
     for f in os.listdir("."):
         if f.startswith("nem"):
             os.remove(f)
